@@ -195,7 +195,7 @@ def parse_results(text):
     """`= [(1, [1; 0]); (2, [..])] : list (N * list N)` -> {1: [1,0], ...}"""
     text = re.sub(r"\s+", " ", text)
     res = {}
-    for m in re.finditer(r"\((\d+), \[([0-9; ]*)\]\)", text):
+    for m in re.finditer(r"\(\s*(\d+),\s*\[([0-9; ]*)\]\s*\)", text):
         res[int(m.group(1))] = [int(x) for x in m.group(2).split(";") if x.strip()]
     return res
 
